@@ -9,20 +9,16 @@ mirrors `suggested_keywords`.
 namespace Pkgcore.C40
 open Spec
 
-/-- **only known arches**: when `cc_arches` are known arches and the repository's KEYWORDS are well formed and use
-known arches (the caller's contract), every request yielded — for any request list, any sentinels, any option
-combination — names only arches known to the repository. -/
+/-- **only known arches**: when `cc_arches` are known arches (the caller's contract: the Bug binding filters CC
+through `repo.known_arches`), every request yielded — for any repository (its ebuilds may carry keywords the
+repository no longer knows), any request list, any sentinels, any option combination — names only arches known to
+the repository. -/
 theorem arches_known (repo : Repo) (o : Opts) (reqs : List Req)
-    (hcc : ∀ k ∈ o.cc, k ∈ repo.known)
-    (hwf : ∀ p ∈ repo.pkgs, WfKeywords p)
-    (hrepo : ∀ p ∈ repo.pkgs, ∀ x ∈ p.keywords, PlainArch x → x ∈ repo.known) :
+    (hcc : ∀ k ∈ o.cc, k ∈ repo.known) :
     ∀ y ∈ (matchPackages repo o reqs).1, ∀ k ∈ y.2, k ∈ repo.known := by
   intro y hy
   obtain ⟨pkg, _, h1, _⟩ := matchPackages_good repo o reqs y hy
-  apply h1
-  refine ⟨hcc, fun p hp k hk => ?_⟩
-  obtain ⟨_, hplain, _, q, hq, _, hs⟩ := (suggested_stable_iff repo p (hwf p hp) hwf k).1 hk
-  exact hrepo q hq k hs hplain
+  exact h1 hcc
 
 /-- **the narrowing options are honoured**: every yielded request belongs to a package of the repo and
 * with `cc_arches` given (and outside the all-arches mode) names only arches among them;
@@ -83,6 +79,33 @@ example : WfKeywords (exPkg "test/mixed" "3" ["~alpha", "amd64", "-hppa"]) := by
   · exact Or.inr (Or.inl ⟨"alpha".toList, rfl, by decide, by decide, by decide⟩)
   · exact Or.inl ⟨by decide, by decide, by decide⟩
   · exact Or.inr (Or.inr ⟨"hppa".toList, rfl, by decide, by decide, by decide⟩)
+
+/-- **what a `^` line repeats does not depend on the narrowing of the line above**: the list remembered for
+`SAME_KEYWORDS` after a line is its cc-narrowed keyword list — the same for every `only_new`, `filter_arch` and
+`allarches` setting, in particular never the all-arches candidates added to the yielded request. -/
+theorem previous_independent_of_narrowing (repo : Repo) (o o' : Opts) (hcc : o.cc = o'.cc) (st : St) (r : Req)
+    (idx : Nat) (pkg : Pkg) (kws : List Str) :
+    ∃ s1 s2, tailStep repo o st r idx pkg kws = .next s1 ∧ tailStep repo o' st r idx pkg kws = .next s2 ∧
+      s1.previous = s2.previous := by
+  obtain ⟨s1, h1, p1⟩ := tailStep_previous repo o st r idx pkg kws
+  obtain ⟨s2, h2, p2⟩ := tailStep_previous repo o' st r idx pkg kws
+  refine ⟨s1, s2, h1, h2, ?_⟩
+  rw [p1, p2]
+  unfold ccStep
+  rw [hcc]
+
+/-- **`^` stands for exactly that list**: a line `^ extra…` (no other sentinel) expands to the remembered list of the
+line above followed by its own extra keywords -/
+theorem same_keywords_means_previous (repo : Repo) (o : Opts) (st : St) (r : Req) (pkg : Pkg) (prev : List Str)
+    (hp : st.previous = some prev)
+    (hsame : (r.written.map (lstrip ['~'])).contains ['^'] = true)
+    (hno : (r.written.map (lstrip ['~'])).contains ['-'] = false ∧ (r.written.map (lstrip ['~'])).contains ['*'] = false) :
+    expandSentinels repo o st r pkg = .kws (prev ++ (r.written.map (lstrip ['~'])).filter (· ≠ ['^'])) := by
+  unfold expandSentinels
+  simp only [hno.1, hno.2, hsame, hp, Bool.false_eq_true, if_false, Option.isNone_some, Bool.and_false, if_true,
+    Option.getD_some]
+
+example : (['^'] : Str) ∈ ([['^'], "amd64".toList] : List Str).map (lstrip ['~']) := by decide
 
 /-- **specs a stabilization cannot act on are rejected**: in a stabilization, a line whose spec is not a plain `=cpv`
 (another operator, `=…*`, or a slot) ends the run with `PackageInvalid` — nothing is yielded for it or after it —
